@@ -188,3 +188,19 @@ PROPS["C05"]["also"] = ["C05F"]      # lexical parser half + fold half
 PROPS["C12"]["also"] = ["C05F"]      # C12_fold_wf lives in Props/C05F.v
 PROPS["C14"]["also"] = ["C05F"]      # C14_fold_category lives in Props/C05F.v
 PROPS["C10"]["also"] = ["C03"]       # C10_fold_* (desugaring at the fold level) live in Props/C03.v
+
+PROPS["C16"] = {
+    "props": ["Props/C16.v"],
+    "run": ["Run/TypstRun.v"],
+    "tables": ["T4", "T6"],
+    "n_quick": 300,
+    "n_thorough": 3000,
+    "trusted_base": TB_COMMON + [
+        "hand-written control skeleton of the Typst renderer model (Model/Typst.v: format_term dispatch, template_compound layouts, Sentence/Task segment interpreter, post_process_whitespace) tied by the correspondence check; the 58 markup constants, constructor -> constant / bracket tables, the ordered layout arms and the segment lists are regenerated (T6); every other function of formatter_enum.rs / definition.rs / common templates / nar_dev_utils ToDebug is recognised verbatim by the translator",
+        "f64 Display is an oracle table written by the harness (theorems: an abstract function with stated hypotheses); isize/usize Display = Base/Dec.v show_Z/show_N",
+        "`impl Debug for str` of std re-implemented (Model/Typst.v debug_str: per-char \\0 \\t \\r \\n \\\\ \\\" \\u{hex} escapes); which characters are \\u-escaped is a range table dumped from std by the harness on every run, and the per-char shape is checked exhaustively (all scalar values) against std on every run",
+        "char::is_whitespace / str::trim = the fixed 25-code-point White_Space set of the model, compared with std's on every run",
+        "std::collections::HashSet iterates a given set in the same order every time it is iterated without modification (the harness serialises set payloads in iteration order)",
+    ],
+    "assumptions": ["names of well-formed values contain name characters only (alphanumeric, _, -, > U+1F2FF): no whitespace, quotes or backslashes"],
+}
